@@ -40,7 +40,7 @@ PerInst(k, n, p) == [kind |-> k, shared |-> FALSE, inst |-> n, perinst |-> TRUE,
                      klo |-> SM!CountLo(p), khi |-> SM!CountHi(p),
                      startup |-> <<2, n - 2>>, shots |-> n * SM!CountHi(p) + n]
 PerInstRuns == <<PerInst("http", 3, Profiles[1]), PerInst("http", 8, Profiles[2]), PerInst("grpc", 5, Profiles[1])>>
-NoDiscard == [discard |-> FALSE, delay_ms |-> 0, queue |-> 0]
+NoDiscard == [discard |-> FALSE, delay_ms |-> 0, queue |-> 0, dns |-> FALSE, reps |-> 1]
 Plain(r) == r @@ [perinst |-> FALSE, rps |-> <<>>, klo |-> 0, khi |-> 0, startup |-> <<r.inst>>] @@ NoDiscard
 SharedRuns == SetToSeq({r \in RunMatrix : r.shared => HasSharedClient(r.kind)})
 (* discard runs: discard_overflow: true, a SHARED rps list [once, const] and guns whose first shot takes 2.2 s, so
@@ -51,10 +51,17 @@ SharedRuns == SetToSeq({r \in RunMatrix : r.shared => HasSharedClient(r.kind)})
 DiscardRun(k, n, q) == [kind |-> k, shared |-> FALSE, inst |-> n, perinst |-> FALSE,
                         rps |-> <<[ctor |-> "once", times |-> 40, ops |-> 0, dur_ms |-> 0],
                                   [ctor |-> "const", times |-> 0, ops |-> 200, dur_ms |-> 2600]>>, klo |-> 0, khi |-> 0, startup |-> <<n>>,
-                        shots |-> 700, discard |-> TRUE, delay_ms |-> 2200, queue |-> q]
+                        shots |-> 700, discard |-> TRUE, delay_ms |-> 2200, queue |-> q, dns |-> FALSE, reps |-> 1]
 DiscardRuns == <<DiscardRun("grpc", 6, 0), DiscardRun("json", 4, 16)>>
+(* dns runs: the HTTP-family guns share ONE process-wide DNS cache that is only in use when the target is a host name that
+   could not be resolved / reached while the guns were constructed: nothing listens during the config decode, the target
+   is up when the instances start and all of them dial by name at once.  The cache is filled once per process, so the
+   race-monitor mode repeats the run (a fresh process each time). *)
+DnsRun(k, s, n, reps) == [Plain([kind |-> k, shared |-> s, inst |-> n, shots |-> 4 * n]) EXCEPT !.dns = TRUE, !.reps = reps]
+DnsReps == IF 16 \in InstChoices THEN 8 ELSE 3
+DnsRuns == <<DnsRun("http", FALSE, 8, DnsReps), DnsRun("http/scenario", FALSE, 8, DnsReps)>>
 Runs == [i \in 1..Len(SharedRuns) |-> Plain(SharedRuns[i])]
-        \o [i \in 1..Len(PerInstRuns) |-> PerInstRuns[i] @@ NoDiscard] \o DiscardRuns
+        \o [i \in 1..Len(PerInstRuns) |-> PerInstRuns[i] @@ NoDiscard] \o DiscardRuns \o DnsRuns
 GenInit == Init /\ PrintT(<<"VERIF", ToJson([runs |-> Runs])>>)
 GenNext == UNCHANGED vars
 =============================================================================
